@@ -168,8 +168,69 @@ def _large_worker(args):
 LARGE_SPLIT = 4
 
 
+def _inplace(old, new):
+    """make `old` (a caller-owned list, possibly nested) hold the contents of `new` WITHOUT creating a new list
+    object wherever the old one is a list too: the caller edits its problem in place between two calls"""
+    if isinstance(old, list) and isinstance(new, list):
+        items = []
+        for i, n in enumerate(new):
+            items.append(_inplace(old[i], n) if i < len(old) else n)
+        old[:] = items
+        return old
+    return new
+
+
+class _ReusingCaller:
+    """wraps the module's solve_* functions for the history pass: every call passes the SAME argument objects
+    as the previous call of that function, edited in place to the new problem"""
+
+    def __init__(self, mod):
+        self.mod = mod
+        self.saved = {}
+        self.last = {}
+
+    def __enter__(self):
+        import types
+        for nm, f in list(vars(self.mod).items()):
+            if nm.startswith("solve_") and isinstance(f, types.FunctionType):
+                self.saved[nm] = f
+                setattr(self.mod, nm, self._wrap(nm, f))
+        return self
+
+    def _wrap(self, nm, f):
+        def g(*args, **kw):
+            prev = self.last.get((nm, len(args)))
+            if prev is not None:
+                args = tuple(_inplace(o, n) for o, n in zip(prev, args))
+            self.last[(nm, len(args))] = args
+            return f(*args, **kw)
+        return g
+
+    def __exit__(self, *a):
+        for nm, f in self.saved.items():
+            setattr(self.mod, nm, f)
+        return False
+
+
+def _history_sample(insts, per_shape):
+    """instances for the history pass: boards of one size and argument form next to each other"""
+    def shape(i):
+        if not isinstance(i, dict):
+            return ""
+        return json.dumps([i.get(k) for k in ("height", "width", "h", "w", "size", "n")] + sorted(k for k in i if isinstance(i[k], list)), default=str)
+    groups = {}
+    for i in insts:
+        groups.setdefault(shape(i), []).append(i)
+    out = []
+    for k in sorted(groups):
+        g = groups[k]
+        if len(g) >= 2:
+            out += g[:: max(1, len(g) // per_shape)][:per_shape]
+    return out
+
+
 def _worker(args):
-    name, insts = args
+    name, insts = args[0], args[1]
     out = dict(name=name, n=0, mismatches=[], crash=None, nontrivial=0, timeouts=[])
     try:
         import warnings
@@ -202,6 +263,42 @@ def _worker(args):
                 mm["inst"] = inst
                 mm["cls"] = oracle.classify(inst) if hasattr(oracle, "classify") else "any"
                 out["mismatches"].append(mm)
+        # history pass: the same instances again (a sample), now through a caller that keeps its argument
+        # lists and edits them in place between the calls; the answers must not depend on that
+        hist = args[2] if len(args) > 2 else []
+        if len(hist) >= 2 and not out["mismatches"]:
+            # only a mismatch that is specific to the history counts here: instances on which the solver
+            # disagrees with the oracle when asked afresh (before any history call) are left to the main pass
+            fails_fresh = set()
+            for inst in hist:
+                signal.setitimer(signal.ITIMER_REAL, TIME_LIMIT)
+                try:
+                    if compare(oracle, mod, inst) is not None:
+                        fails_fresh.add(json.dumps(inst, sort_keys=True))
+                except _TimeLimit:
+                    fails_fresh.add(json.dumps(inst, sort_keys=True))
+                finally:
+                    signal.setitimer(signal.ITIMER_REAL, 0)
+            hist = [i for i in hist if json.dumps(i, sort_keys=True) not in fails_fresh]
+            with _ReusingCaller(mod) as caller:
+                prev = None
+                for inst in hist:
+                    out["n"] += 1
+                    signal.setitimer(signal.ITIMER_REAL, TIME_LIMIT)
+                    try:
+                        mm = compare(oracle, mod, inst)
+                    except _TimeLimit:
+                        continue
+                    finally:
+                        signal.setitimer(signal.ITIMER_REAL, 0)
+                    if mm is not None and len(out["mismatches"]) < 20:
+                        mm["kind"] = "history-reused-arguments:" + mm["kind"]
+                        mm["detail"] = "after a call with %s on the same (edited in place) argument objects: %s" % (json.dumps(prev)[:120], mm["detail"])
+                        mm["inst"] = inst
+                        mm["previous"] = prev
+                        mm["cls"] = oracle.classify(inst) if hasattr(oracle, "classify") else "any"
+                        out["mismatches"].append(mm)
+                    prev = inst
     except Exception:
         out["crash"] = traceback.format_exc()[-2000:]
     return out
@@ -249,10 +346,15 @@ def run(rep, tier, seed, nproc=16):
             continue
         covered.append(name)
         oracle = importlib.import_module("specs.rules." + name)
-        insts = list(oracle.instances(tier, random.Random(seed * 1000003 + hash(name) % 1000)))
+        insts = list(oracle.instances(tier, random.Random(seed * 1000003 + __import__("zlib").crc32(name.encode()) % 1000)))
         k = max(1, min(len(insts), 8))
         for i in range(k):
             tasks.append((name, insts[i::k]))
+        hs = _history_sample(insts, 6 if tier == "quick" else 40)
+        if hs:
+            tasks.append((name, [], hs))
+        if hasattr(oracle, "history_instances"):
+            tasks.append((name, [], list(oracle.history_instances(tier, random.Random(seed * 31 + 7)))))
     per = {}
     large = [(name, i, tier, seed) for name in covered
              if hasattr(importlib.import_module("specs.rules." + name), "large_instances") for i in range(LARGE_SPLIT)]
@@ -291,7 +393,8 @@ def run(rep, tier, seed, nproc=16):
             if sig in seen:
                 continue
             seen.add(sig)
-            payload = dict(engine="puzzles", property="C11", puzzle=name, inst=mm["inst"], kind=mm["kind"], detail=mm["detail"], grid=mm.get("grid"))
+            payload = dict(engine="puzzles", property="C11", puzzle=name, inst=mm["inst"], kind=mm["kind"], detail=mm["detail"], grid=mm.get("grid"),
+                           previous=mm.get("previous"))
             rp = write_replay("C11", "%s_%s" % (name, mm["kind"]), payload)
             rep.violation(sig, "%s | %s | instance %s" % (name, mm["detail"], json.dumps(mm["inst"])[:300]), rp)
     rep.coverage["puzzles_covered"] = {n: per.get(n, {}).get("n", 0) for n in covered}
@@ -320,6 +423,12 @@ def replay(payload):
         mms, _ = program_check(oracle, mod, payload["inst"], cands)
         print("replay %s (posted program) %s -> %s" % (payload["puzzle"], json.dumps(payload["inst"])[:160], [m["detail"] for m in mms] or "agrees"))
         return 1 if mms else 0
+    if payload["kind"].startswith("history-reused-arguments:") and payload.get("previous") is not None:
+        with _ReusingCaller(mod):
+            compare(oracle, mod, payload["previous"])
+            mm = compare(oracle, mod, payload["inst"])
+        print("replay %s %s then %s -> %s" % (payload["puzzle"], json.dumps(payload["previous"])[:120], json.dumps(payload["inst"])[:120], mm or "agrees"))
+        return 1 if mm else 0
     mm = compare(oracle, mod, payload["inst"])
     print("replay %s %s -> %s" % (payload["puzzle"], json.dumps(payload["inst"])[:200], mm or "agrees"))
     return 1 if mm else 0
